@@ -280,13 +280,13 @@ type shard struct {
 }
 
 type Net struct {
-	regMu     sync.Mutex
-	shards    sync.Map // addr -> *shard
-	nshards   int
-	onClose   func(c *Conn, reset bool)
+	regMu        sync.Mutex
+	shards       sync.Map // addr -> *shard
+	nshards      int
+	onClose      func(c *Conn, reset bool)
 	onProxyWrite func(rid string)
-	H         *History
-	S         *Sim
+	H            *History
+	S            *Sim
 }
 
 func NewNet(h *History, s *Sim) *Net {
